@@ -240,6 +240,7 @@ for _fn, _tbl in (('find_channel', 'channels'), ('find_le_coc_channel', 'le_coc_
         ghost=HEAP,
         ensures=(lambda t: lambda self, connection_handle, cid, res: [same(res, entry(getattr(self, t), connection_handle, cid))])(_tbl),
         ensures_names=['the-entry-or-None'],
+        returns=RefT('chans', opt=True),
         modifies=[],
     )
 
